@@ -113,6 +113,13 @@ func scaleOps(d *rj.Value) []r69.Op {
 					ptrs = append(ptrs, ptrInfo{q, nil})
 				}
 			}
+			// one-character tokens that are not digits (a hand-rolled digit parse maps them to 10, 17, 49, 72 ...)
+			for _, t := range []string{":", "A", "a", "x", "/", " "} {
+				ptrs = append(ptrs, ptrInfo{p + "/" + r69.EncodeToken(t), nil})
+				if len(froms) < 9 {
+					froms = append(froms, p+"/"+r69.EncodeToken(t))
+				}
+			}
 			for _, t := range []string{"-", "-1", strconv.Itoa(-n), strconv.Itoa(-(n + 1)), "-256", "-257", "-512", "-513",
 				"18446744073709551615", "-18446744073709551615", "9223372036854775808"} {
 				var node *rj.Value
